@@ -43,6 +43,11 @@ func (state *singleRateLimitState) TryToIncrement(
 ) CurrentLimitState {
 	state.mutex.Lock()
 	defer state.mutex.Unlock()
+	if state.windowData.WindowSize != windowData.WindowSize {
+		// The stored window end belongs to the grid of the previous window size:
+		// a new window size starts counting afresh on its own grid.
+		state.windowEndTime = epochTime
+	}
 	state.windowData = windowData
 	state.ensureWindowIsUpdated()
 
